@@ -114,3 +114,58 @@ Proof.
   destruct (slice p _ _); try discriminate. cbn [obind] in E. destruct (slice p _ _); try discriminate. cbn [obind] in E.
   inversion E; reflexivity.
 Qed.
+
+(* ---------- split of a circular record at two or more distinct positions *)
+
+Lemma seq_rotate_bare (p : list byte) h : 0 <= h < zlen p ->
+  seq_rotate (bare p) (- h) = Ok (bare (skipn (Z.to_nat h) p ++ firstn (Z.to_nat h) p)).
+Proof.
+  intros Hh. exact (plan_rotate_origin p (Seg h h) [] Hh).
+Qed.
+
+Lemma seq_slice_wrap_bare (p : list byte) a b : 0 <= b < a -> a < zlen p ->
+  seq_slice (bare p) a b = Ok (bare (skipn (Z.to_nat a) p ++ firstn (Z.to_nat b) p)).
+Proof.
+  intros Hb Ha. unfold seq_slice. cbn [seq_slice_f]. change (residues (bare p)) with p.
+  destruct (Z.ltb_spec a 0); [lia|]. destruct (Z.ltb_spec b 0); [lia|]. destruct (Z.ltb_spec b a); [|lia].
+  rewrite seq_rotate_bare by lia. cbn [obind].
+  set (q := skipn (Z.to_nat a) p ++ firstn (Z.to_nat a) p).
+  assert (Hq : zlen q = zlen p) by (unfold q; rewrite zlen_app, zlen_skipn, zlen_firstn; lia).
+  change (seq_slice_f 2 (bare q) 0 (zlen p - a + b)) with (seq_slice (bare q) 0 (zlen p - a + b)) at 1 || idtac.
+  pose proof (seq_slice_bare q 0 (zlen p - a + b) ltac:(lia) ltac:(lia)) as S.
+  unfold seq_slice in S. cbn [seq_slice_f] in S |- *. change (residues (bare q)) with q in *.
+  rewrite Hq in *.
+  destruct (Z.ltb_spec 0 0); [lia|]. destruct (Z.ltb_spec (zlen p - a + b) 0); [lia|].
+  destruct (Z.ltb_spec (zlen p - a + b) 0); [lia|].
+  cbn [seq_slice_f] in S.
+  (* both are the non-wrapping branch on q *)
+  revert S. cbn [feats bare filter map_locs obind map residues].
+  destruct (Z.ltb_spec (zlen p - a + b - 0) 0); [lia|]. intros S.
+  rewrite S. f_equal. f_equal. unfold lslice, q. cbn [Z.to_nat skipn]. rewrite Z.sub_0_r.
+  rewrite firstn_app. rewrite skipn_length.
+  replace (Z.to_nat (zlen p - a + b) - (length p - Z.to_nat a))%nat with (Z.to_nat b) by (unfold zlen in *; lia).
+  rewrite firstn_all2 by (rewrite skipn_length; unfold zlen in *; lia).
+  f_equal. rewrite firstn_firstn. f_equal. lia.
+Qed.
+
+Theorem circular_split_concat (p : list byte) h1 rest : 0 <= h1 -> ascending h1 rest ->
+  h1 < last rest h1 -> last rest h1 < zlen p ->
+  exists pieces, slice_pairs (bare p) (last rest h1 :: h1 :: rest) = Ok pieces /\
+    flat_map residues pieces = skipn (Z.to_nat (last rest h1)) p ++ firstn (Z.to_nat (last rest h1)) p.
+Proof.
+  intros H0 Hasc Hlt HL. set (lst := last rest h1) in *.
+  rewrite slice_pairs_cons2. rewrite seq_slice_wrap_bare by lia. cbn [obind].
+  destruct (slice_pairs_concat p rest h1 H0 Hasc) as (pieces & E & F).
+  { constructor; [lia|]. clear - Hasc HL. subst lst. revert h1 Hasc HL.
+    induction rest as [|x t IH]; intros h1 Hasc HL; [constructor|]. destruct Hasc as [H1 H2].
+    assert (Hx : last (x :: t) h1 = last t x).
+    { destruct t as [|z t']; [reflexivity|]. change (last (z :: t') h1 = last (z :: t') x). apply last_nonempty. discriminate. }
+    rewrite Hx in HL. constructor.
+    - destruct t as [|y u]; [cbn [last] in HL; lia|]. pose proof (ascending_last x (y :: u) x H2 ltac:(discriminate)). lia.
+    - apply (IH x H2 HL). }
+  change (PlansProofs.bare p) with (bare p) in E. rewrite E. cbn [obind]. eexists. split; [reflexivity|]. cbn [flat_map residues bare]. rewrite F. fold lst.
+  rewrite <- app_assoc. f_equal.
+  rewrite <- (firstn_skipn (Z.to_nat h1) (firstn (Z.to_nat lst) p)).
+  rewrite firstn_firstn, Nat.min_l by lia. f_equal.
+  rewrite skipn_firstn_comm. f_equal. lia.
+Qed.
